@@ -191,6 +191,70 @@ def make(n, jobs_hi, budget, kinds=("run_command",), unrelated=False, orders="re
     return fn
 
 
+class BatchAll(fakeos.Sched):
+    """All running children exit together: one SIGCHLD stands for all of them."""
+
+    def __init__(self, bad):
+        self.bad = bad
+        self.rc = {}
+
+    def on_spawn(self, kernel, proc):
+        hrun.snapshot_on_spawn(kernel, proc)
+
+    def exits_now(self, kernel, point, running):
+        return list(running) if point == "read_batch" else []
+
+    def pick_exit(self, kernel, running):
+        return running[0]
+
+    def status_for(self, kernel, proc):
+        rc = 10 + (proc.vpid - kernel.FIRST_PID) % 200 if proc.name == self.bad else 0
+        self.rc[proc.pid] = rc
+        return rc << 8
+
+
+def scale_fn(g):
+    """Many children in flight at once, all of them exiting before the one SIGCHLD is handled."""
+    from vlib.hrun import TaskSpec
+    import conductor.cli.run as cli_run
+    w = (7, 9, 12, 40)[g.choose("width", 4)]
+    jobs = (w, 64)[g.choose("jobs", 2)]
+    badi = g.choose("failing_leaf", 3)
+    leaves = [TaskSpec("l%02d" % i, "run_command", [], par=True) for i in range(w)]
+    bad = (None, "l00", "l%02d" % (w - 1))[badi]
+    specs = leaves + [TaskSpec("root", "group", [l.ident for l in leaves])]
+    proj = hrun.Project()
+    try:
+        proj.write_tasks(specs)
+        sched = BatchAll(bad)
+        kern = fakeos.Kernel(sched, adversarial=True)
+        res = hrun.invoke(cli_run.main, hrun.run_ns(task_identifier="//:root", jobs=jobs), str(proj.root), kern, timeout=120)
+        D = "%d parallel commands under a group, --jobs %d, all exit within one SIGCHLD, failing=%s" % (w, jobs, bad)
+        g.require(res.status != "deadlock", "sigchld:lost-exit-deadlock", "cond run blocks forever with %d exited children unreported; %s; %s" % (
+            sum(1 for p_ in kern.tasks() if p_.state == "zombie"), res.exc, D))
+        if isinstance(res.status, str):
+            g.require(False, "run:crash:" + res.status, "%s; %s" % (res.exc, D))
+        info = hrun.parse_run_output(res)
+        done = sorted(x for _, x in info["completed"])
+        failed = sorted(x for _, x in info["failed_marks"])
+        g.require(len(kern.tasks()) == w, "account:spawn-count", "%d children for %d leaves; %s" % (len(kern.tasks()), w, D))
+        g.require(all(p_.state != "run" for p_ in kern.tasks()), "account:child-left-running", D)
+        exp_failed = ["//:" + bad] if bad else []
+        exp_done = sorted(l.ident for l in leaves if l.name != bad) + ([] if bad else ["//:root"])
+        g.require(failed == exp_failed and done == exp_done, "account:task-without-exactly-one-outcome",
+                  "completed %d (expected %d), failed %s (expected %s); %s" % (len(done), len(exp_done), failed, exp_failed, D))
+        codes = {m.group(1): int(m.group(2)) for m in CODE_RE.finditer(res.out + res.err)}
+        if bad:
+            g.require(codes == {"//:" + bad: [v for v in sched.rc.values() if v][0]}, "account:wrong-outcome", "codes %s; %s" % (codes, D))
+        g.require((res.status == 0) == (bad is None), "account:exit-status", "status %r; %s" % (res.status, D))
+        conc = max(sum(1 for p_ in kern.tasks() if p_.t_spawn <= q.t_spawn and (p_.t_exit is None or p_.t_exit > q.t_spawn)) for q in kern.tasks())
+        if conc >= 7:
+            g.goal("seven or more children in flight at once")
+        return {"nontrivial": True, "sample": {"case": D, "max_in_flight": conc}}
+    finally:
+        proj.cleanup()
+
+
 def spaces(tier):
     sp = [Space("n2-j2-b2", make(2, 2, 2, kinds=("run_command", "run_experiment")),
                 "N<=2, kinds {run_command, run_experiment}, par bits, jobs 1..2, each child exits 0 or with a distinct "
@@ -206,6 +270,10 @@ def spaces(tier):
                     "N<=2 run_command tasks, jobs 1..2, one deviation which may be: a running task is stopped (SIGSTOP) and later "
                     "continued - the parent receives SIGCHLD for both - at any kernel-call boundary", depth=7,
                     goals=["a task is stopped and continued"]))
+    sp.append(Space("scale-many-children-one-sigchld", scale_fn,
+                    "{7, 9, 12, 40} parallel commands under one group, --jobs {width, 64}: all of them in flight at once and all exiting "
+                    "before the single SIGCHLD is handled; none / the first / the last one fails", depth=4,
+                    goals=["seven or more children in flight at once"]))
     if tier == "thorough":
         sp.append(Space("n3-j3-b2", make(3, 3, 2),
                         "N=3 run_command tasks, jobs 1..3, <=2 schedule deviations", depth=9, tiers=("thorough",),
